@@ -2,6 +2,7 @@
   C15 — Filter changes only ids; CheckIds only rejects foreign ids.
   Property theorems about CM.Model.Rel (tied to /repo by the S-REL correspondence).
 -/
+import CM.Proofs.CheckIds
 import CM.Model.Rel
 namespace CM.C15
 open CM
@@ -61,5 +62,37 @@ example :
     let d : DS := { fields := ["id", "x"], ids := .ok ["b", "a", "c"], value := fun _ i => .ok (.str i) }
     (match (filterDS (fun i => .ok (i != "a")) d).ids with | .ok xs => xs == ["b", "c"] | .error _ => false) = true := by
   decide
+
+/-! ## Node level: `CheckIds._connect` (`CM.Model.CheckIds`, compared with the real container in S-FACTORY) -/
+
+/-- **Node level: CheckIds is value- and hash-transparent for the ids of the dataset.**  Let `b` be the container `CheckIds` builds
+on a well-formed container `prev` with the single input `i` whose `ids` do not depend on the key.  Every field of `prev` computing `t`
+is a field of `b` computing `t` with the key replaced by the guarded key; if the key is bound to `v` and `v` is among the ids, the new
+term has the same node hash and the same value as `t` - for every field and every input. -/
+theorem node_checkids_transparent {prev b : Bag} {i idsOut : BNode} (hw : prev.WF) (h : checkIdsBag prev = .ok b)
+    (hpi : prev.inputs = [i]) (hids : byName prev.outputs "ids" = some idsOut) (tids : BTerm) (hdi : BDen prev idsOut tids)
+    (hcl : tids.closed) (x : String) (t : BTerm) (hf : prev.Field x t) (d : DenCfg) (v : Val) (ids : List Val) (hh : NHash × Val)
+    (hx : d.env i.name = some v) (hih : (tids.den d).h = .ok hh) (hiv : (tids.den d).v = .ok (.tup ids))
+    (hin : ids.any (·.pyEq v) = true) :
+    ∃ t', b.Field x t' ∧ DenEq (t'.den d) (t.den d) := by
+  obtain ⟨o, ho, hox, hd⟩ := hf
+  obtain ⟨_, _, _, _, _, _, _, _, hout⟩ := checkIdsBag_ok h
+  refine ⟨_, ⟨o, hout o ho, hox, den_checkIds hw h hpi hids tids hdi hcl hd (hw.ids o (nodes3_out ho))⟩, ?_⟩
+  apply den_subst
+  obtain ⟨hg1, hg2⟩ := checkIds_guard_den d i.name tids v ids hh hx hih hiv
+  refine ⟨?_, ?_⟩
+  · rw [hg1]; simp [BTerm.den, hx, Except.map]
+  · rw [hg2, hin]; simp [BTerm.den, hx]
+
+/-- **Node level: a foreign id is rejected.**  In the guarded container the key of every field is the node `CheckIdsEdge(key, ids)`:
+for a key that is not among the ids it raises `KeyError` (and has the hash of the key, so the rejection is never cached under another
+key). -/
+theorem node_checkids_rejects (d : DenCfg) (x : String) (tids : BTerm) (v : Val) (ids : List Val) (hh : NHash × Val)
+    (hx : d.env x = some v) (hih : (tids.den d).h = .ok hh) (hiv : (tids.den d).v = .ok (.tup ids))
+    (hout : ids.any (·.pyEq v) = false) :
+    ((BTerm.node .checkIds [.inp x, tids]).den d).v = .error .keyError ∧
+    ((BTerm.node .checkIds [.inp x, tids]).den d).h.map (·.1) = .ok (.leaf v) := by
+  obtain ⟨hg1, hg2⟩ := checkIds_guard_den d x tids v ids hh hx hih hiv
+  exact ⟨by rw [hg2, hout]; rfl, hg1⟩
 
 end CM.C15
